@@ -84,6 +84,7 @@ KW = [
     ("Prefixed(Byte, Int16ub)", {}, "u16"), ("Prefixed(Int16ub, Bytes(this.n), includelength=True)", {"n": (0, 2)}, "bytes:n"), ("PrefixedArray(Byte, Byte)", {}, "list2"),
     ("Peek(Int16ub)", {}, "none"), ("Struct('kind'/Byte, 'next'/Peek(Int16ub), 'flag'/Byte)", {}, "struct_kf"), ("Sequence(Byte, Peek(Bytes(this._params.n)), Byte)", {"n": (0, 3)}, "seq_peek"),
     ("Struct('a'/Byte, 'o'/Optional(Int16ub))", {}, "struct_a_only"), ("FocusedSeq('b', 'a'/Peek(Int32ub), 'b'/Byte)", {}, "byte"),
+    ("Sequence('n'/Byte, 'd'/Bytes(this.n))", {"n": (0, 3)}, "seq_nd"), ("Struct('n'/Byte, 'd'/Bytes(this.n))", {"n": (0, 3)}, "struct_nd"), ("FocusedSeq('d', 'n'/Byte, 'd'/Bytes(this.n))", {"n": (0, 3)}, "seq_nd_focus"),
     ("ByteSwapped(Bytes(0))", {}, "bytes0"), ("BitsSwapped(Bytes(0))", {}, "bytes0"), ("Bitwise(Array(0, Bit))", {}, "list0"), ("BitStruct()", {}, "dict0"), ("Bytewise(Bytes(0))", {}, "bytes0"),
     ("Struct('a'/Byte, 'z'/ByteSwapped(Bytes(0)), 'e'/BitStruct(), 'b'/Byte)", {}, "struct_azeb"), ("Transformed(Bytes(0), lambda b: b, 0, lambda b: b, 0)", {}, "bytes0"),
     ("Restreamed(Bytes(this.n), lambda b: b, 1, lambda b: b, 1, lambda n: n)", {"n": (0, 2)}, "bytes:n"),
@@ -151,6 +152,11 @@ def _value(ctx, how, kw):
         return [ctx.bytes("v[0]", key(1)), ctx.int("v[1]", 0, 65535)]
     if k == "rawcopy":
         return dict(value=ctx.bytes("v", key(1)))
+    if k in ("seq_nd", "struct_nd", "seq_nd_focus"):
+        # the member n is data: its value (not a keyword of the same name) decides the size of d
+        m = ctx.choice("v.n", [0, 1, 3])
+        d_ = ctx.bytes("v.d", m)
+        return [m, d_] if k == "seq_nd" else (dict(n=m, d=d_) if k == "struct_nd" else d_)
     if k == "bytes0":
         return b""
     if k == "list0":
